@@ -73,7 +73,7 @@ type inst struct {
 	flushAt    []int // log positions at which this instance wrote its HyperLogLog cache back
 	aborted    map[int]bool
 	abortTaint map[string]int
-	ckpt  int // log position of the newest checkpoint, -1 = none
+	ckpt       int // log position of the newest checkpoint, -1 = none
 	// bookkeeping for evidence
 	firstApplyAt int64
 	applyAt      []int64 // fake time at which request i was (first) applied
@@ -97,19 +97,19 @@ type sim struct {
 	start  time.Time
 	sleeps int
 	// evidence
-	batchedCalls    int
-	expiryCrossed   int
-	reopens         int
-	restores        int
-	maxOffset       int64
+	batchedCalls     int
+	expiryCrossed    int
+	reopens          int
+	restores         int
+	maxOffset        int64
 	partitionsDiffer bool
-	hllKeys         map[string]bool
-	memType         int
-	syncer          bool // the log is of the cluster-syncer type (entries written by the log syncer of another cluster)
-	ablateReplay    bool
-	findings        []finding
-	firstPfadd      map[string]int
-	firstOther      map[string]int
+	hllKeys          map[string]bool
+	memType          int
+	syncer           bool // the log is of the cluster-syncer type (entries written by the log syncer of another cluster)
+	ablateReplay     bool
+	findings         []finding
+	firstPfadd       map[string]int
+	firstOther       map[string]int
 }
 
 var runSeq int64
@@ -382,7 +382,7 @@ func (s *sim) bubble() {
 			case 5:
 				// a client reads from this replica only (GET, PFCOUNT, HGETALL ...): must not matter either
 				if in.sm != nil && in.dead == "" {
-					logicalDump(in.st, s.ntable)
+					logicalDump(in.st, s.ntable, s.firstPfadd)
 					// PFCOUNT normalises the cached sketch in place (known finding hll-dirty-cache)
 					in.flushAt = append(in.flushAt, in.applied)
 					s.c.Probe("reads_on_one_replica")
@@ -567,7 +567,13 @@ func (s *sim) applyCall(in *inst, ents []entry, replay bool) {
 					if len(open) > 0 {
 						c.Probe("batch_aborted_by_failing_command")
 					}
+					// (known finding batch-abort-on-error was repaired in /repo: the
+					// batch operator applies the dropped commands again; the
+					// relaxation is switched off, the probe stays)
 					for _, x := range open {
+						if abortRepaired {
+							break
+						}
 						in.aborted[x] = true
 						for _, k := range s.log[x].keys {
 							if _, ok := in.abortTaint[k]; !ok {
